@@ -50,6 +50,9 @@ def main():
         sub = ""
         if cdm:
             sub = re.sub(r"/tmp/wt/[A-Za-z0-9]+/?", "", cdm.group(1))
+        rf = str(demo.get("run_from", "")).strip().strip("/")
+        if rf and rf not in (".", "root") and os.path.isdir(os.path.join(repo, rf.split()[0])):
+            sub = rf.split()[0]
         gocmd = re.sub(r"/tmp/wt/[A-Za-z0-9]+", repo, gocmd)
         # the package the demo is run in is the most reliable hint for where it has to be copied
         if a.copy_to is None:
